@@ -3,6 +3,12 @@
 Bounded run-time harness: the real ``dawgie.pl.farm`` (Hand, dispatch, _put,
 notify_all, rerunid, clear) driven through fake transports.  What reaches a
 worker is decoded from the bytes written to its transport.
+
+Archive requests: the event ('arch',) sets farm.ARCHIVE; the fake life-cycle
+machine's archiving_trigger() makes the pipeline inactive like the real one
+(state archiving, transitioning entering) until ('life', 'on') ends the
+archive.  A dispatch call that fires archiving_trigger() must not write a task
+message to any worker (the pipeline is not active any more in that call).
 '''
 
 import collections
@@ -32,7 +38,10 @@ BOUND = (
     'histories over {register k (matching|stale revision, also repeated on '
     'one connection), disconnect k, status poll (matching|stale), dispatch '
     'tick, life-cycle (deactivate, new revision, load = notify_all+clear, '
-    'activate), enqueue one of 6 job templates (task/analysis/regress, run '
+    'activate), archive request (farm.ARCHIVE = True; the fake '
+    'fsm.archiving_trigger() makes the pipeline inactive as the real one '
+    'does, activate stands for the end of the archive and clears the '
+    'request), enqueue one of 6 job templates (task/analysis/regress, run '
     'id given or None)} with <= 3 worker slots and <= 3 queued task '
     'messages: every path up to depth 4 (quick) / 5 (thorough) over a '
     '2-slot, 3-template sub-alphabet; one shortest history per distinct '
@@ -151,6 +160,7 @@ class FSM:  # pylint: disable=too-few-public-methods
         self.active = True
         self.crew = False
         self.archived = 0
+        self.archiving = False
 
     def is_pipeline_active(self):
         return self.active
@@ -159,7 +169,11 @@ class FSM:  # pylint: disable=too-few-public-methods
         return self.crew
 
     def archiving_trigger(self):
+        # the real machine enters 'archiving' (transitioning = entering):
+        # is_pipeline_active() is False until the archive is done
         self.archived += 1
+        self.archiving = True
+        self.active = False
 
 
 # dawgie.context.dumps() leaves the real FSM out by its type name
@@ -247,6 +261,8 @@ class World:
         self.outstanding = collections.Counter()  # made, not yet sent
         self.max_runid = max(t[3] or 0 for t in TEMPLATES)
         self.step_no = -1
+        self.archived_before = 0
+        self.archive_req = False  # ghost of farm.ARCHIVE
         self.trace = []
 
     # ---- fakes the farm calls
@@ -271,6 +287,8 @@ class World:
             return p is not None and p.alive
         if kind in ('poll', 'tick'):
             return True
+        if kind == 'arch':
+            return not self.archive_req and not self.fsm.archiving
         if kind == 'life':
             what = ev[1]
             if what == 'off':
@@ -304,6 +322,7 @@ class World:
         self.batches = []
         waiting_before = None
         cluster_before = [_key(m) for m in farm._cluster]
+        self.archived_before = self.fsm.archived
         if kind == 'reg':
             k, how = ev[1], ev[2]
             p = self.slots[k]
@@ -353,11 +372,20 @@ class World:
             p.hand.connectionLost(None)
         elif kind == 'tick':
             farm.dispatch()
+        elif kind == 'arch':
+            # what Hand._res (new values) / the front end (run, reset with
+            # archive) do: ask for an archive once the farm is idle
+            farm.ARCHIVE = True
+            self.archive_req = True
         elif kind == 'life':
             what = ev[1]
             if what == 'off':
                 self.fsm.active = False
             elif what == 'on':
+                if self.fsm.archiving:  # FSM._archive_done
+                    farm.ARCHIVE = False
+                    self.archive_req = False
+                    self.fsm.archiving = False
                 self.fsm.active = True
             elif what == 'newrev':  # FSM._reload, only while not active
                 self.revno += 1
@@ -420,6 +448,22 @@ class World:
                     p.waits += 1
             p.lost_seen = p.transport.lost
 
+        if self.fsm.archived != self.archived_before:
+            if self.fsm.is_pipeline_active():
+                raise RuntimeError('C11 harness: fake archiving_trigger() left the pipeline active')
+            if sent:
+                self.fail(
+                    'C11.active',
+                    'task-in-archiving-dispatch',
+                    {
+                        'sent': [(p.name, _key(m)) for p, m in sent],
+                        'archiving_trigger_calls': self.fsm.archived
+                        - self.archived_before,
+                        'event': list(ev),
+                    },
+                    'no task message in a dispatch call that sent the '
+                    'pipeline into archiving (it is not active any more)',
+                )
         if sent and not self.fsm.active:
             self.fail(
                 'C11.active',
@@ -675,6 +719,8 @@ class World:
         names = {id(p.hand): p.name for p in self.peers}
         return (
             self.fsm.active,
+            bool(farm.ARCHIVE),
+            self.fsm.archiving,
             self.revno,
             self.need_load,
             tuple(names.get(id(h), '?') for h in farm._workers),
@@ -716,6 +762,7 @@ def alphabet(nslots, templates):
     evs.append(('poll', 'ok'))
     evs.append(('poll', 'stale'))
     evs.append(('tick',))
+    evs.append(('arch',))
     for what in ('off', 'on', 'newrev', 'load'):
         evs.append(('life', what))
     for t in templates:
@@ -865,6 +912,7 @@ def _random_history(rng, length, nslots, strict):
         'disc': 1,
         'poll': 1,
         'tick': 4,
+        'arch': 1,
         'life': 1,
         'enq': 3,
     }
